@@ -13,6 +13,7 @@ Decided (structural):
 from .. import paths as P
 from .. import dt
 from ..mir import Body, strip_all, show, subterms
+from .. import apnf
 from . import util as U
 
 
@@ -294,6 +295,7 @@ def c11_3(ctx):
             ok = is_be and neg
         ctx.ob(R, "to_clvm:" + ty, ok, "encode_number(&self.to_be_bytes(), *self < 0)", found=found, where=f[0].sp)
     ctx.floor(R, "integer impl pairs", n, 12)
+    c11_3_sign_tests(ctx)
     # encode_number / decode_number literal inventory (pad bytes by sign, sign mask, padding cap)
     for fn_, want in (("clvm_traits::int_encoding::encode_number", {0xFF, 0x00, 0x80}),
                       ("clvm_traits::int_encoding::decode_number", {0xFF, 0x00, 0x80, 64})):
@@ -326,3 +328,49 @@ def c11_3(ctx):
                     tab[nc[1][1]] = v[2] if v[0] == "c" else None
             ctx.ob(R, "pad-by-sign:" + fn_.split("::")[-1], tab == {True: 0xFF, False: 0x00},
                    "pad byte = 0xFF when negative, 0x00 otherwise", found=tab)
+
+
+def c11_3_sign_tests(ctx):
+    """decode_number evaluates the sign bit `slice[0] & 0x80 != 0` exactly three times, each directly under a branch on the
+    `signed` parameter: once with signed == false (negative atoms are rejected for unsigned types) and twice with
+    signed == true (before and after stripping padding; the two must agree, else the value does not fit the width).
+    If the second evaluation is conditioned on anything else (e.g. on the first result) a positive value one sign byte too
+    wide is accepted and wraps."""
+    R = "C11.3"
+    b = U.body(ctx, R, "clvm_traits::int_encoding::decode_number")
+    if not b:
+        return
+    want = "('Ne', ('BitAnd', ('[]', 'var:slice', 0), 128), 0)"
+    sites = []   # (block, kind)
+
+    def under(node_or_block):
+        out = []
+        for t, lab in b.dominating_conditions(node_or_block):
+            st = strip_all(t)
+            if st and st[0] == "arg" and st[2] == "signed" and lab[0] == "bool":
+                out.append(lab[1])
+        return out
+    seen_blocks = set()
+    for node in b.edge_info:
+        sb = b.edge_info[node][0]
+        if sb not in b.reach or sb in seen_blocks:
+            continue
+        t, lab = b.edge_condition(node)
+        if str(apnf.N(t)) == want:
+            seen_blocks.add(sb)
+            sites.append(("branch", tuple(under(sb))))
+    for bi, blk in enumerate(b.blocks):
+        if bi not in b.reach:
+            continue
+        for st in blk["s"]:
+            if st["k"] == "assign" and not st["pl"].get("p") and st["pl"]["l"] in b.names and str(apnf.N(b.rvalue_term(st["rv"]))) == want:
+                sites.append(("value:" + b.names[st["pl"]["l"]][:0], tuple(under(bi))))
+    got = sorted((k.split(":")[0], u) for k, u in sites)
+    exp = sorted([("branch", (False,)), ("value", (True,)), ("value", (True,))])
+    ctx.ob(R, "decode_number:sign-tests", got == exp,
+           "the sign bit is evaluated once under !signed (reject) and twice under signed (before/after padding removal)",
+           expected=[str(x) for x in exp], found=[str(x) for x in got], where=b.fn.sp)
+    ne = U.edges_where(b, lambda t, lab: str(apnf.N(t)).startswith("('Ne', 'var:") and lab == ("bool", True))
+    ok = len(ne) == 1 and not b.reachable_avoiding(ne[0], b.ok_exits(), []) if ne else False
+    ctx.ob(R, "decode_number:sign-agreement", bool(ne) and ok, "a value whose sign changes when the padding is removed is rejected",
+           where=b.fn.sp)
